@@ -53,6 +53,21 @@ impl RecordsBounds {
         Self::new(Self::namespace_start(&ns), Self::namespace_end(&ns))
     }
 
+    /// The half-open range `[start, end)` restricted to the records of namespace `ns`.
+    pub fn within_namespace(ns: &NamespaceId, start: RecordsIdOwned, end: RecordsIdOwned) -> Self {
+        let ns_start = (ns.to_bytes(), [0u8; 32], Bytes::new());
+        let start = start.max(ns_start);
+        let end = match Self::namespace_end(ns) {
+            Bound::Excluded(ns_end) if ns_end < end => ns_end,
+            _ => end,
+        };
+        if start >= end {
+            // empty
+            return Self::new(Bound::Included(start.clone()), Bound::Excluded(start));
+        }
+        Self::new(Bound::Included(start), Bound::Excluded(end))
+    }
+
     pub fn from_start(ns: &NamespaceId, end: Bound<RecordsIdOwned>) -> Self {
         Self::new(Self::namespace_start(ns), end)
     }
